@@ -416,13 +416,14 @@ class Formatter:
 
         pattern += re.escape(fmt[position:])
 
-        if not re.search("^" + pattern + "$", time):
+        match = re.search("^" + pattern + "$", time)
+        if not match:
             raise ValueError(f"String does not match format {fmt}")
 
-        def _get_parsed_values(m: Match[str]) -> Any:
-            return self._get_parsed_values(m, parsed, loaded_locale, now)
-
-        re.sub(pattern, _get_parsed_values, time)
+        # The groups of the anchored match: matching the pattern again
+        # without its anchors may stop at a name that is the beginning of
+        # another one (tr: Cuma / Cumartesi).
+        self._get_parsed_values(match, parsed, loaded_locale, now)
 
         return self._check_parsed(parsed, now)
 
